@@ -1292,28 +1292,10 @@ class Escape:
         return "KeyError" if not isinstance(idx, ast.Slice) else None
 
     def _dict_key_present(self, f: Func, base: ast.AST, k) -> bool:
-        """base is bound (possibly through a for-target over a generator) to dict literals that all contain k."""
-        if not isinstance(base, ast.Name):
-            return False
-        lits: List[ast.Dict] = []
-        for st, v in assignments_to(f.node, base.id):
-            if isinstance(v, ast.Dict):
-                lits.append(v)
-            elif isinstance(st, (ast.For, ast.AsyncFor)) and v is None and isinstance(st.target, ast.Tuple):
-                pos = [i for i, t in enumerate(st.target.elts) if dotted(t) == base.id]
-                it = strip_cast(st.iter)
-                if pos and isinstance(it, ast.Call):
-                    cal = self.rs.resolve_call(f, it)
-                    if cal.kind == "func" and cal.func is not None:
-                        ys = [y for y in body_walk(cal.func.node) if isinstance(y, ast.Yield)]
-                        for y in ys:
-                            if isinstance(y.value, ast.Tuple) and len(y.value.elts) > pos[0] and isinstance(y.value.elts[pos[0]], ast.Dict):
-                                lits.append(y.value.elts[pos[0]])
-                            else:
-                                return False
-                        # `yield from` of itself is fine
-            else:
-                return False
+        """Every value `base` may hold is a dict literal that contains key k.  Values are followed through locals, tuple
+        unpacking, for-targets over package generators (their yielded tuples, also through `yield <local>` and
+        `yield from`), and `next(<generator>, default)`."""
+        lits = self._dict_literals(f, base, 0, set())
         if not lits:
             return False
         for d in lits:
@@ -1326,6 +1308,127 @@ class Escape:
             if k not in keys:
                 return False
         return True
+
+    def _dict_literals(self, f: Func, e: ast.AST, depth: int, seen: set) -> Optional[List[ast.Dict]]:
+        if e is None or depth > 12:
+            return None
+        e = strip_cast(e)
+        if isinstance(e, ast.Dict):
+            return [e]
+        if isinstance(e, ast.Name):
+            key = (f.fq, e.id, "d")
+            if key in seen:
+                return []
+            seen = seen | {key}
+            out: List[ast.Dict] = []
+            defs = assignments_to(f.node, e.id)
+            if not defs:
+                return None
+            for st, v in defs:
+                if isinstance(v, ast.Constant) and v.value is None:
+                    continue
+                if v is not None:
+                    r = self._dict_literals(f, v, depth + 1, seen)
+                else:
+                    r = None
+                    tgt, source = None, None
+                    if isinstance(st, (ast.For, ast.AsyncFor)):
+                        tgt, source = st.target, ("iter", st.iter)
+                    elif isinstance(st, ast.Assign) and isinstance(st.targets[0], (ast.Tuple, ast.List)):
+                        tgt, source = st.targets[0], ("value", st.value)
+                    if isinstance(tgt, (ast.Tuple, ast.List)):
+                        pos = [i for i, t in enumerate(tgt.elts) if dotted(t) == e.id]
+                        tups = self._tuple_values(f, source[1], depth + 1, seen, elements=(source[0] == "iter")) if pos else None
+                        if tups is not None:
+                            r = []
+                            for g, t in tups:
+                                if len(t.elts) <= pos[0]:
+                                    return None
+                                rr = self._dict_literals(g, t.elts[pos[0]], depth + 1, seen)
+                                if rr is None:
+                                    return None
+                                r.extend(rr)
+                if r is None:
+                    return None
+                out.extend(r)
+            return out
+        return None
+
+    def _tuple_values(self, f: Func, e: ast.AST, depth: int, seen: set, elements: bool = False) -> Optional[List[Tuple[Func, ast.Tuple]]]:
+        """The tuple literals expression e may evaluate to (elements=False) or iterate over (elements=True)."""
+        if e is None or depth > 12:
+            return None
+        e = strip_cast(e)
+        if not elements:
+            if isinstance(e, ast.Tuple):
+                return [(f, e)]
+            if isinstance(e, ast.Constant) and e.value is None:
+                return []
+            if isinstance(e, ast.Call) and dotted(e.func) == "next" and e.args:
+                r = self._tuple_values(f, e.args[0], depth + 1, seen, elements=True)
+                if r is None:
+                    return None
+                if len(e.args) > 1:
+                    d = self._tuple_values(f, e.args[1], depth + 1, seen)
+                    if d is None:
+                        return None
+                    r = r + d
+                return r
+            if isinstance(e, ast.Name):
+                key = (f.fq, e.id, "t")
+                if key in seen:
+                    return []
+                seen = seen | {key}
+                out = []
+                defs = assignments_to(f.node, e.id)
+                if not defs:
+                    return None
+                for st, v in defs:
+                    if v is not None:
+                        r = self._tuple_values(f, v, depth + 1, seen)
+                    elif isinstance(st, (ast.For, ast.AsyncFor)) and dotted(st.target) == e.id:
+                        r = self._tuple_values(f, st.iter, depth + 1, seen, elements=True)
+                    else:
+                        r = None
+                    if r is None:
+                        return None
+                    out.extend(r)
+                return out
+            return None
+        # elements of an iterable
+        if isinstance(e, ast.Name):
+            out = []
+            defs = assignments_to(f.node, e.id)
+            if not defs:
+                return None
+            for st, v in defs:
+                r = self._tuple_values(f, v, depth + 1, seen, elements=True) if v is not None else None
+                if r is None:
+                    return None
+                out.extend(r)
+            return out
+        if isinstance(e, ast.Call):
+            cal = self.rs.resolve_call(f, e)
+            if cal.kind == "func" and cal.func is not None:
+                g = cal.func
+                key = (g.fq, "<yields>")
+                if key in seen:
+                    return []
+                seen = seen | {key}
+                out = []
+                ys = [y for y in body_walk(g.node) if isinstance(y, (ast.Yield, ast.YieldFrom))]
+                if not ys:
+                    return None
+                for y in ys:
+                    if isinstance(y, ast.YieldFrom):
+                        r = self._tuple_values(g, y.value, depth + 1, seen, elements=True)
+                    else:
+                        r = self._tuple_values(g, y.value, depth + 1, seen)
+                    if r is None:
+                        return None
+                    out.extend(r)
+                return out
+        return None
 
     def _short_circuit_guards(self, f: Func, node: ast.AST) -> List[Tuple[ast.AST, bool]]:
         """(test, polarity) pairs known to hold when `node` is evaluated because of short-circuit evaluation inside its
